@@ -34,7 +34,7 @@ func init() {
 			}
 			return 16
 		},
-		Rule: "each case = one real service stack with the harness system SCORE 'verif' (contract.RegisterSystemScore, installed at a fixed funded address by the setup block) and 6 programs. A program is a JSON op list interpreted by the SCORE against the real call context: set/delete storage, transfer ICX to EOAs (ICXTransfer event), emit event, queue BTP message, add validator, move the sender's balance ('drain'), nested inter-calls to itself up to depth 3 whose failure is caught or propagated, consume steps, revert(code), burn all steps. The transaction fails by revert / out of step (program or a step limit cut at a chosen count) / unknown method or bad parameter / non-payable method with value / transfer of more than the SCORE owns / out of balance at fee time (after 'drain'), after 0..k mutations at every nesting depth; it carries value in a third of the cases. It is executed alone or between two succeeding transfers, and the SAME block without it is executed on the same parent as control. Oracle: every account of the account trie (encoding incl. storage root), validator list, BTP data and extension data of the two results are identical except payer balance -fee and treasury +fee (fee = stepUsed x stepPrice of the receipt), and the receipt has no event logs and no BTP messages. Non-trivial = distinct failing program that executed at least one mutation before failing.",
+		Rule: "each case = one real service stack with the harness system SCORE 'verif' (contract.RegisterSystemScore, installed at a fixed funded address by the setup block) and 6 programs. A program is a JSON op list interpreted by the SCORE against the real call context: set/delete storage, transfer ICX to EOAs (ICXTransfer event), emit event, send a BTP message on the open network (BTPState.HandleMessage + OnBTPMessage, as ChainScore.sendBTPMessage), add validator, move the sender's balance ('drain'), nested inter-calls to itself up to depth 3 whose failure is caught or propagated, consume steps, revert(code), burn all steps. The transaction fails by revert / out of step (program or a step limit cut at a chosen count) / unknown method or bad parameter / non-payable method with value / transfer of more than the SCORE owns / out of balance at fee time (after 'drain'), after 0..k mutations at every nesting depth; it carries value in a third of the cases. It is executed alone, or as one of 2-3 failing transactions of different senders in one block (most of them send on the open BTP network 1 before failing: repeated roll-backs of the BTP state), alone or between two succeeding transfers, and the SAME block without it is executed on the same parent as control. Oracle: every account of the account trie (encoding incl. storage root), validator list, BTP data and extension data of the two results are identical except payer balance -fee and treasury +fee (fee = stepUsed x stepPrice of the receipt), and the receipt has no event logs and no BTP messages. Non-trivial = distinct failing program that executed at least one mutation before failing.",
 		MinNonTrivial: func(t string) int {
 			if t == ev.Thorough {
 				return 10000
@@ -43,7 +43,8 @@ func init() {
 		},
 		Required: []string{"programs", "failed_tx_judged", "failed_after_mutations", "status_Reverted", "status_OutOfStep", "status_OutOfBalance",
 			"status_MethodNotFound", "failed_with_value", "failed_depth_ge_3", "failed_with_caught_inner_failure", "failed_after_event", "failed_after_btp",
-			"failed_after_xfer", "failed_after_addval", "failed_after_storage", "success_changes_state", "with_neighbours", "accounts_compared"},
+			"failed_after_xfer", "failed_after_addval", "failed_after_storage", "success_changes_state", "with_neighbours", "accounts_compared",
+			"multi_blocks_all_failed", "multi_blocks_two_failed_btp_senders", "failed_tx_with_btp_send_and_caught_failure"},
 		Assumptions: []string{
 			"the control block (same parent, same height/time, same neighbours, without the failing transaction) captures every block-level effect that is not the transaction's",
 			"the harness SCORE runs inside the real call context (frames, snapshots, steps); its own trace of executed mutations is observability only",
@@ -187,7 +188,7 @@ func run(c *ev.Ctx) {
 			ExtraAccounts: map[string]*big.Int{scoreAddr.String(): big.NewInt(int64(100000 + r.Intn(1000000)))},
 		}
 		owner := wallet.New().Address()
-		cfg.Setup = install(owner)
+		cfg.Setup = install(owner, wallet.New())
 		st, err := feefix.New(cfg)
 		if err != nil {
 			c.Violation("harness.setup", err.Error())
@@ -202,7 +203,12 @@ func run(c *ev.Ctx) {
 		// give the SCORE some storage first so that delete/replace have something to act on
 		ts := int64(1000000)
 		pre := e.scoreTx(st.Wallets[0], "run", []op{{Op: "set", K: "a", V: "aa"}, {Op: "set", K: "b", V: "bb"}}, nil, big.NewInt(100000000), ts)
-		b1 := st.Exec(st.Base, []module.Transaction{pre}, ts, false)
+		settle := st.Exec(st.Base, nil, ts-1000, false) // settles the first section of the opened BTP network
+		if !settle.OK() {
+			c.Violation("harness.settle-block", fmt.Sprint(settle.ValidateErr, settle.ExecErr))
+			return
+		}
+		b1 := st.Exec(settle, []module.Transaction{pre}, ts, false)
 		if !b1.OK() {
 			c.Violation("harness.prepare-block", fmt.Sprint(b1.ValidateErr, b1.ExecErr))
 			return
@@ -236,10 +242,11 @@ func (e *env) scoreTx(from module.Wallet, method string, prog []op, value *big.I
 }
 
 type result struct {
-	blk      *feefix.Block
-	accounts map[string]*feefix.Account
-	ws       state.WorldSnapshot
-	valHash  []byte
+	blk       *feefix.Block
+	accounts  map[string]*feefix.Account
+	ws        state.WorldSnapshot
+	valHash   []byte
+	btpDigest []byte
 }
 
 func (e *env) execute(parent *feefix.Block, txs []module.Transaction, ts int64) (*result, error) {
@@ -262,69 +269,128 @@ func (e *env) execute(parent *feefix.Block, txs []module.Transaction, ts int64) 
 	if vl := blk.Tr.NextValidators(); vl != nil {
 		vh = vl.Hash()
 	}
-	return &result{blk: blk, accounts: acc, ws: ws, valHash: vh}, nil
+	var dh []byte
+	if bsn := blk.Tr.BTPSection(); bsn != nil && bsn.Digest() != nil {
+		dh = bsn.Digest().Hash()
+	}
+	return &result{blk: blk, accounts: acc, ws: ws, valHash: vh, btpDigest: dh}, nil
 }
 
-func (e *env) program(c *ev.Ctx, r *rand.Rand, parent *feefix.Block, ts int64, emptyControl **result) {
+// ptx is one generated test transaction.
+type ptx struct {
+	tx       module.Transaction
+	sender   module.Wallet
+	kind     string
+	method   string
+	prog     []op
+	progJSON string
+	value    *big.Int
+	limit    *big.Int
+	feat     map[string]bool
+}
+
+// gen makes one test transaction of the given sender. btpBias makes the
+// program touch the BTP state of the open network before it fails.
+func (e *env) gen(r *rand.Rand, sender module.Wallet, ts int64, onlyFailing, btpBias bool) *ptx {
 	g := &genState{r: r, e: e, feat: map[string]bool{}}
+	p := &ptx{sender: sender, method: "run", feat: g.feat}
 	kind := r.Intn(100)
-	sender := e.st.Wallets[r.Intn(4)]
-	method := "run"
-	var prog []op
-	var value *big.Int
-	wantFail := true
-	kindName := ""
+	if onlyFailing {
+		kind = r.Intn(76) // kinds that fail by construction (or are cut / invalid)
+		if kind >= 55 && kind < 68 {
+			kind = r.Intn(55)
+		}
+	}
 	switch {
 	case kind < 55:
-		kindName = "program-fails"
-		prog = g.seq(1, true, true)
+		p.kind = "program-fails"
+		p.prog = g.seq(1, true, true)
 	case kind < 68:
-		kindName = "step-limit-cut"
-		prog = g.seq(1, false, true)
-		for len(prog) < 3 {
-			prog = append(prog, g.mutation(1))
+		p.kind = "step-limit-cut"
+		p.prog = g.seq(1, false, true)
+		for len(p.prog) < 3 {
+			p.prog = append(p.prog, g.mutation(1))
 		}
 	case kind < 76:
-		kindName = "invalid-call"
-		prog = g.seq(1, false, true)
+		p.kind = "invalid-call"
+		p.prog = g.seq(1, false, true)
 		switch r.Intn(3) {
 		case 0:
-			method = "noSuchMethod"
+			p.method = "noSuchMethod"
 		case 1:
-			method = "plain" // with value below: not payable
-			value = big.NewInt(int64(1 + r.Intn(1000)))
+			p.method = "plain" // with value below: not payable
+			p.value = big.NewInt(int64(1 + r.Intn(1000)))
 		default:
-			prog = nil // missing parameter
+			p.prog = nil // missing parameter
 		}
 	case kind < 90:
-		kindName = "drained-at-fee-time"
-		sender = e.st.Wallets[4]
-		prog = append(g.seq(1, false, false), op{Op: "drain", To: sender.Address().String(), V: new(big.Int).Lsh(big.NewInt(1), 100).String()})
+		p.kind = "drained-at-fee-time"
+		p.sender = e.st.Wallets[4]
+		p.prog = append(g.seq(1, false, false), op{Op: "drain", To: p.sender.Address().String(), V: new(big.Int).Lsh(big.NewInt(1), 100).String()})
 	default:
-		kindName = "succeeds"
-		wantFail = false
-		prog = g.seq(1, false, false)
-		for i := range prog {
-			if prog[i].Op == "btp" { // a successful BTP message needs an open network
-				prog[i] = op{Op: "event", N: 1}
-			}
+		p.kind = "succeeds"
+		p.prog = append(g.seq(1, false, false), op{Op: "set", K: "c", V: hex.EncodeToString([]byte{byte(1 + r.Intn(250)), 7})})
+	}
+	if btpBias && p.prog != nil {
+		// send on the open network first (dirties the BTP state), sometimes
+		// inside a caught failing sub-call as well
+		pre := []op{{Op: "btp", N: 1, V: "b" + fmt.Sprint(r.Intn(100))}}
+		if r.Intn(3) == 0 {
+			pre = append(pre, op{Op: "call", Catch: true, Prog: []op{{Op: "btp", N: 1, V: "inner"}, {Op: "revert", N: 3}}})
 		}
-		prog = append(prog, op{Op: "set", K: "c", V: hex.EncodeToString([]byte{byte(1 + r.Intn(250)), 7})})
+		p.prog = append(pre, p.prog...)
+		g.feat["btp"] = true
 	}
-	if !wantFail || kindName == "drained-at-fee-time" || kindName == "step-limit-cut" {
-		// these programs are meant to complete: no BTP message may survive (no network is open)
-		prog = stripBTP(prog, kindName != "succeeds")
+	if p.kind == "succeeds" || p.kind == "step-limit-cut" {
+		// a transaction that completes must not change the validator set in a
+		// chain with an open BTP network (no BTP key for the new validator)
+		p.prog = replaceOp(p.prog, "addval")
 	}
-	if value == nil && r.Intn(3) == 0 && method != "noSuchMethod" {
-		value = big.NewInt(int64(1 + r.Intn(100000)))
+	if p.value == nil && r.Intn(3) == 0 && p.method != "noSuchMethod" {
+		p.value = big.NewInt(int64(1 + r.Intn(100000)))
 	}
-	dataLen, _ := feefix.CompactJSONLen(map[string]interface{}{"method": method, "params": progParams(prog)})
+	dataLen, _ := feefix.CompactJSONLen(map[string]interface{}{"method": p.method, "params": progParams(p.prog)})
 	min := e.defCost + e.inCost*int64(dataLen)
-	limit := big.NewInt(min + e.callC*int64(2+countOps(prog)) + int64(countOps(prog))*opCost + 100000)
-	if kindName == "step-limit-cut" {
-		limit = big.NewInt(min + e.callC + int64(r.Intn(countOps(prog)*opCost+int(e.callC)+1)))
+	p.limit = big.NewInt(min + e.callC*int64(2+countOps(p.prog)) + int64(countOps(p.prog))*opCost + 100000)
+	if p.kind == "step-limit-cut" {
+		p.limit = big.NewInt(min + e.callC + int64(r.Intn(countOps(p.prog)*opCost+int(e.callC)+1)))
 	}
-	tx := e.scoreTx(sender, method, prog, value, limit, ts)
+	p.tx = e.scoreTx(p.sender, p.method, p.prog, p.value, p.limit, ts)
+	p.progJSON = feefix.JSONString(p.prog)
+	return p
+}
+
+func replaceOp(prog []op, name string) []op {
+	out := make([]op, len(prog))
+	for i, o := range prog {
+		if o.Op == name {
+			o = op{Op: "event", N: 1}
+		}
+		if len(o.Prog) > 0 {
+			o.Prog = replaceOp(o.Prog, name)
+		}
+		out[i] = o
+	}
+	return out
+}
+
+// program runs one comparison: a block with 1 (or 2-3, multi) test
+// transactions, optionally between two succeeding transfers, against the
+// same block without them.
+func (e *env) program(c *ev.Ctx, r *rand.Rand, parent *feefix.Block, ts int64, emptyControl **result) {
+	multi := r.Intn(3) == 0
+	var tests []*ptx
+	if multi {
+		// 2-3 failing transactions of different senders in ONE block; most of
+		// them touch the BTP state before failing
+		n := 2 + r.Intn(2)
+		perm := r.Perm(4)
+		for i := 0; i < n; i++ {
+			tests = append(tests, e.gen(r, e.st.Wallets[perm[i]], ts, true, r.Intn(4) != 0))
+		}
+	} else {
+		tests = append(tests, e.gen(r, e.st.Wallets[r.Intn(4)], ts, false, r.Intn(4) == 0))
+	}
 
 	var n1, n2 module.Transaction
 	neighbours := r.Intn(5) < 2
@@ -340,11 +406,18 @@ func (e *env) program(c *ev.Ctx, r *rand.Rand, parent *feefix.Block, ts int64, e
 		}
 		n1, n2 = mk(6, 7, int64(1+r.Intn(1000))), mk(7, 6, int64(1+r.Intn(1000)))
 	}
-	progJSON := feefix.JSONString(prog)
-	txJSON, _ := tx.ToJSON(module.JSONVersionLast)
-	c.Note("program kind=%s neighbours=%v value=%v limit=%s tx=%s", kindName, neighbours, value, limit, feefix.JSONString(txJSON))
-	c.Eval(1)
-	c.Count("programs", 1)
+	var wtests []map[string]interface{}
+	for _, p := range tests {
+		txJSON, _ := p.tx.ToJSON(module.JSONVersionLast)
+		wtests = append(wtests, map[string]interface{}{"kind": p.kind, "method": p.method, "program": json.RawMessage(p.progJSON),
+			"value": fmt.Sprint(p.value), "step_limit": p.limit.String(), "sender": p.sender.Address().String(), "tx": txJSON})
+	}
+	c.Note("programs multi=%v neighbours=%v txs=%s", multi, neighbours, feefix.JSONString(wtests))
+	c.Eval(len(tests))
+	c.Count("programs", len(tests))
+	if multi {
+		c.Count("multi_blocks", 1)
+	}
 
 	// control
 	var control *result
@@ -363,17 +436,25 @@ func (e *env) program(c *ev.Ctx, r *rand.Rand, parent *feefix.Block, ts int64, e
 		return
 	}
 	// test
-	txs := []module.Transaction{tx}
-	idx := 0
+	var txs []module.Transaction
 	if neighbours {
-		txs = []module.Transaction{n1, tx, n2}
-		idx = 1
+		txs = append(txs, n1)
+	}
+	first := len(txs)
+	for _, p := range tests {
+		txs = append(txs, p.tx)
+	}
+	if neighbours {
+		txs = append(txs, n2)
 	}
 	test, err := e.execute(parent, txs, ts)
-	tr := takeTrace(tx.ID())
-	wit := map[string]interface{}{"kind": kindName, "program": json.RawMessage(progJSON), "method": method, "value": fmt.Sprint(value), "step_limit": limit.String(),
-		"price": e.price.String(), "default_step": e.defCost, "input_step": e.inCost, "call_step": e.callC, "neighbours": neighbours,
-		"tx": txJSON, "trace": tr}
+	traces := make([]*txTrace, len(tests))
+	for i, p := range tests {
+		traces[i] = takeTrace(p.tx.ID())
+		wtests[i]["trace"] = traces[i]
+	}
+	wit := map[string]interface{}{"txs": wtests, "multi": multi, "price": e.price.String(), "default_step": e.defCost,
+		"input_step": e.inCost, "call_step": e.callC, "neighbours": neighbours}
 	if err != nil {
 		c.Count("test_block_refused", 1)
 		c.Notef("test block refused: %v", err)
@@ -389,40 +470,78 @@ func (e *env) program(c *ev.Ctx, r *rand.Rand, parent *feefix.Block, ts int64, e
 		c.Violation("harness.receipts", fmt.Sprint(err))
 		return
 	}
-	rc := rs[idx]
-	st := rc.Status()
-	wit["status"] = st.String()
-	wit["stepUsed"] = rc.StepUsed().String()
-	wit["stepPrice"] = rc.StepPrice().String()
-	c.Count("status_"+st.String(), 1)
-	if st >= module.StatusReverted {
-		c.Count("status_Reverted", 1)
+	allFailed := true
+	fees := map[string]*big.Int{} // payer account key -> fee
+	total := new(big.Int)
+	suffix := ""
+	btpFailed := 0
+	for i, p := range tests {
+		rc := rs[first+i]
+		st := rc.Status()
+		wtests[i]["status"], wtests[i]["stepUsed"], wtests[i]["stepPrice"] = st.String(), rc.StepUsed().String(), rc.StepPrice().String()
+		c.Count("status_"+st.String(), 1)
+		if st >= module.StatusReverted {
+			c.Count("status_Reverted", 1)
+		}
+		if st == module.StatusSuccess {
+			allFailed = false
+			c.Count("tx_succeeded", 1)
+			continue
+		}
+		c.Count("failed_tx_judged", 1)
+		fee := new(big.Int).Mul(rc.StepUsed(), rc.StepPrice())
+		wtests[i]["fee"] = fee.String()
+		k := feefix.AccountKey(p.sender.Address())
+		if fees[k] == nil {
+			fees[k] = new(big.Int)
+		}
+		fees[k].Add(fees[k], fee)
+		total.Add(total, fee)
+		if suffix == "" {
+			suffix = "." + st.String()
+		}
+		// receipt: no event logs, no BTP messages
+		if it := rc.EventLogIterator(); it != nil && it.Has() {
+			c.Violation("failed-tx.receipt-has-event-logs."+st.String(), wit)
+		}
+		if l := rc.BTPMessages(); l != nil && l.Len() > 0 {
+			c.Violation("failed-tx.receipt-has-btp-messages."+st.String(), wit)
+		}
+		tr := traces[i]
+		if tr.BTPSends > 0 {
+			btpFailed++
+		}
 	}
-	if st == module.StatusSuccess {
-		c.Count("tx_succeeded", 1)
+	if multi {
+		suffix = ".multi"
+	}
+	sk := feefix.AccountKey(scoreAddr)
+	if !allFailed {
 		// the monitor is not vacuous: a successful program's effects are visible in the same comparison
-		sk := feefix.AccountKey(scoreAddr)
 		if a, b := test.accounts[sk], control.accounts[sk]; a != nil && b != nil && !bytes.Equal(a.Bytes, b.Bytes) {
 			c.Count("success_changes_state", 1)
 		}
 		return
 	}
-	c.Count("failed_tx_judged", 1)
-	fee := new(big.Int).Mul(rc.StepUsed(), rc.StepPrice())
-	wit["fee"] = fee.String()
-	suffix := "." + st.String()
-
-	// receipt: no event logs, no BTP messages
-	if it := rc.EventLogIterator(); it != nil && it.Has() {
-		c.Violation("failed-tx.receipt-has-event-logs"+suffix, wit)
+	if multi {
+		c.Count("multi_blocks_all_failed", 1)
+		if btpFailed >= 2 {
+			c.Count("multi_blocks_two_failed_btp_senders", 1)
+		}
 	}
-	if l := rc.BTPMessages(); l != nil && l.Len() > 0 {
-		c.Violation("failed-tx.receipt-has-btp-messages"+suffix, wit)
+	for _, tr := range traces {
+		if tr.BTPSends > 0 && tr.Caught > 0 {
+			c.Count("failed_tx_with_btp_send_and_caught_failure", 1)
+			break
+		}
 	}
 
-	// state: identical to the control except the fee
-	payerK, treasK, scoreK := feefix.AccountKey(sender.Address()), feefix.AccountKey(e.st.Treasury), feefix.AccountKey(scoreAddr)
-	names := map[string]string{payerK: "payer", treasK: "treasury", scoreK: "score"}
+	// state: identical to the control except the fees
+	treasK := feefix.AccountKey(e.st.Treasury)
+	names := map[string]string{treasK: "treasury", sk: "score"}
+	for k := range fees {
+		names[k] = "payer"
+	}
 	for i, t := range e.targets {
 		names[feefix.AccountKey(t)] = fmt.Sprintf("transfer-target-%d", i)
 	}
@@ -447,15 +566,15 @@ func (e *env) program(c *ev.Ctx, r *rand.Rand, parent *feefix.Block, ts int64, e
 	for _, k := range sorted {
 		c.Count("accounts_compared", 1)
 		a, b := test.accounts[k], control.accounts[k]
-		switch k {
-		case payerK:
-			want := new(big.Int).Sub(balOf(control.accounts, k), fee)
+		switch {
+		case fees[k] != nil:
+			want := new(big.Int).Sub(balOf(control.accounts, k), fees[k])
 			if balOf(test.accounts, k).Cmp(want) != 0 {
 				wit["payer_balance"], wit["payer_expected"] = balOf(test.accounts, k).String(), want.String()
 				c.Violation("failed-tx.payer-delta-is-not-the-fee"+suffix, wit)
 			}
-		case treasK:
-			want := new(big.Int).Add(balOf(control.accounts, k), fee)
+		case k == treasK:
+			want := new(big.Int).Add(balOf(control.accounts, k), total)
 			if balOf(test.accounts, k).Cmp(want) != 0 {
 				wit["treasury_balance"], wit["treasury_expected"] = balOf(test.accounts, k).String(), want.String()
 				c.Violation("failed-tx.treasury-delta-is-not-the-fee"+suffix, wit)
@@ -466,6 +585,9 @@ func (e *env) program(c *ev.Ctx, r *rand.Rand, parent *feefix.Block, ts int64, e
 				role := names[k]
 				if role == "" {
 					role = "other-account"
+					if k == feefix.AccountKey(state.SystemAddress) {
+						role = "system-account"
+					}
 				}
 				what := "state"
 				if a != nil && b != nil && a.Balance.Cmp(b.Balance) != 0 {
@@ -485,34 +607,40 @@ func (e *env) program(c *ev.Ctx, r *rand.Rand, parent *feefix.Block, ts int64, e
 	if !bytes.Equal(test.ws.BTPData(), control.ws.BTPData()) {
 		c.Violation("failed-tx.state-changed.btp-data"+suffix, wit)
 	}
+	if !bytes.Equal(test.btpDigest, control.btpDigest) {
+		c.Violation("failed-tx.block-has-btp-section"+suffix, wit)
+	}
 	if !bytes.Equal(test.ws.ExtensionData(), control.ws.ExtensionData()) {
 		c.Violation("failed-tx.state-changed.extension-data"+suffix, wit)
 	}
 
 	// what kind of failure did the monitor see
-	if tr.Mutations > 0 {
-		c.Count("failed_after_mutations", 1)
-		c.NonTrivial(kindName + "|" + method + "|" + st.String() + "|" + progJSON)
-		for f := range g.feat {
-			switch f {
-			case "event", "btp", "xfer", "addval", "storage":
-				c.Count("failed_after_"+f, 1)
+	for i, p := range tests {
+		tr := traces[i]
+		if tr.Mutations > 0 {
+			c.Count("failed_after_mutations", 1)
+			c.NonTrivial(p.kind + "|" + p.method + "|" + fmt.Sprint(wtests[i]["status"]) + "|" + p.progJSON)
+			for f := range p.feat {
+				switch f {
+				case "event", "btp", "xfer", "addval", "storage":
+					c.Count("failed_after_"+f, 1)
+				}
 			}
+		} else {
+			c.Count("failed_before_any_mutation", 1)
 		}
-	} else {
-		c.Count("failed_before_any_mutation", 1)
+		if p.value != nil && p.value.Sign() > 0 {
+			c.Count("failed_with_value", 1)
+		}
+		if tr.MaxDepth >= 3 {
+			c.Count("failed_depth_ge_3", 1)
+		}
+		if tr.Caught > 0 {
+			c.Count("failed_with_caught_inner_failure", 1)
+		}
+		c.Count("failure_kind_"+p.kind, 1)
 	}
-	if value != nil && value.Sign() > 0 {
-		c.Count("failed_with_value", 1)
-	}
-	if tr.MaxDepth >= 3 {
-		c.Count("failed_depth_ge_3", 1)
-	}
-	if tr.Caught > 0 {
-		c.Count("failed_with_caught_inner_failure", 1)
-	}
-	c.Count("failure_kind_"+kindName, 1)
-	if c.WantSample() && tr.Mutations > 1 && countOps(prog) < 8 {
+	if c.WantSample() && traces[0].Mutations > 1 && countOps(tests[0].prog) < 8 {
 		c.Sample(wit)
 	}
 }
@@ -524,21 +652,4 @@ func progParams(prog []op) map[string]interface{} {
 		params["prog"] = string(bs)
 	}
 	return params
-}
-
-// stripBTP replaces BTP ops in frames that may complete; keepInFailing keeps
-// them inside frames that are known to fail (mustFail sub-programs end in a
-// failing op, so anything they queued is dropped by the frame).
-func stripBTP(prog []op, keepInFailing bool) []op {
-	out := make([]op, len(prog))
-	for i, o := range prog {
-		if o.Op == "btp" {
-			o = op{Op: "event", N: o.N}
-		}
-		if len(o.Prog) > 0 {
-			o.Prog = stripBTP(o.Prog, keepInFailing)
-		}
-		out[i] = o
-	}
-	return out
 }
